@@ -476,7 +476,7 @@ class SpecFunction:
                                                          and getattr(s_.value.func, "id", "") == "inline")]
         self.macro = want_inline or (not self.uninterpreted
                       and not any(isinstance(n, ast.Call) and getattr(n.func, "id", "") == name for n in ast.walk(node))
-                      and any(isinstance(n, ast.Call) and getattr(n.func, "id", "") in ("exists", "forall", "forall_str")
+                      and any(isinstance(n, ast.Call) and getattr(n.func, "id", "") in ("exists", "forall", "forall_str", "forall_of")
                               for n in ast.walk(node)))
 
     def decl(self):
@@ -785,10 +785,20 @@ class Registry:
                     ok = False
                     break
             if ok and obj is not None:
-                self.by_object[id(obj)] = c
-                w = getattr(obj, "__wrapped__", None)
-                if w is not None:
-                    self.by_object[id(w)] = c
+                # a function reached by name (Class.method(self, ...)) is the contract of the class that *defines* it:
+                # a contract written on a subclass view of an inherited method must not capture that lookup
+                defines = True
+                if "." in c.qualname:
+                    owner = m
+                    for p in c.qualname.split(".")[:-1]:
+                        owner = getattr(owner, p, None)
+                    defines = not isinstance(owner, type) or c.qualname.rsplit(".", 1)[1] in vars(owner)
+                prev = self.by_object.get(id(obj))
+                if prev is None or defines:
+                    self.by_object[id(obj)] = c
+                    w = getattr(obj, "__wrapped__", None)
+                    if w is not None:
+                        self.by_object[id(w)] = c
                 if "." in c.qualname:
                     cls, meth = c.qualname.rsplit(".", 1)
                     self.methods[(cls, meth)] = c
@@ -838,6 +848,22 @@ def _cf_forall_str(eng, st, pos, kw):
     fn = pos[0]
     k = z3.FreshConst(z3.StringSort(), "qs")
     res = eng.call(st, fn, [StrV(k)], {})
+    return [(st, BoolV(z3.ForAll([k], eng.results_to_bool(st, res))))]
+
+
+def _cf_forall_of(eng, st, pos, kw):
+    """forall_of("Kind", lambda x: P): for every value x of the named opaque (reference) kind."""
+    from .kinds import KOpaque, OpaqueV
+
+    kname, fn = pos
+    name = kname.obj if isinstance(kname, ConstV) else None
+    if isinstance(kname, StrV) and z3.is_string_value(kname.t):
+        name = kname.t.as_string()
+    if not isinstance(name, str):
+        raise Unsupported("forall_of needs a literal kind name")
+    kind = KOpaque(name)
+    k = z3.FreshConst(kind.sort(), "qo")
+    res = eng.call(st, fn, [OpaqueV(kind, k)], {})
     return [(st, BoolV(z3.ForAll([k], eng.results_to_bool(st, res))))]
 
 
@@ -992,6 +1018,7 @@ CONTRACT_FUNCS = {
     "forall2": FuncV(_cf_forall2, "forall2"),
     "exists": FuncV(_cf_exists, "exists"),
     "forall_str": FuncV(_cf_forall_str, "forall_str"),
+    "forall_of": FuncV(_cf_forall_of, "forall_of"),
     "ite": FuncV(_cf_ite, "ite"),
     "matches": FuncV(_cf_in_re, "matches"),
 }
